@@ -4,7 +4,20 @@ properties.jsonl (everything not claimed goes to not_applicable with a reason)."
 import json, os
 
 V = "/verif"
-TECH = "bounded symbolic execution of the real Go code (go/ssa regenerated from /repo each run) to SMT-LIB2, decided by z3; counterexamples replayed natively"
+TECH = "bounded symbolic execution of the real Go code (go/ssa regenerated from /repo each run) to SMT-LIB2, decided by %s; a query the long-lived solver process leaves undecided is re-asked once in a fresh non-incremental process (which also delivers the model where one is needed) and is a machinery fault (exit 2) if still undecided; counterexamples replayed natively"
+
+def tech(i):
+    solver = "z3 4.8.12"
+    try:
+        suite = json.load(open(os.path.join(V, "suites", i + ".json")))
+        if '"solver_mode": "fresh"' in json.dumps(suite):
+            return (TECH % solver).replace("a query the long-lived solver process leaves undecided is re-asked once in a fresh non-incremental process (which also delivers the model where one is needed) and is a machinery fault (exit 2) if still undecided",
+                                           "harnesses in 'fresh' solver mode decide every query non-incrementally after a (reset), elsewhere an undecided query is re-asked once in a fresh non-incremental process; still undecided = machinery fault (exit 2)")
+        if suite.get("solver") == "cvc5-bvint":
+            solver = "cvc5 1.0 with bit-vectors translated to integer arithmetic (--solve-bv-as-int=sum; gas*price products)"
+    except OSError:
+        pass
+    return TECH % solver
 
 # id -> (level text, level note, design ref)
 CLAIMED = {
@@ -43,7 +56,7 @@ def main():
             "engine": "gosym",
             "level_claimed": {"category": "model_checking", "text": text, "design_ref": ref},
             "level_note": note,
-            "technique": TECH,
+            "technique": tech(i),
         })
     m = {
         "version": 1,
